@@ -226,4 +226,23 @@ def graphWorkCached (s : Schema) (d : Document) : Nat :=
   cyclesWork tbl 1 + ((opDefs d).length + tbl.length) +
   ((opDefs d).map (fun o => 3 * (1 + (recursiveUsages s tbl o).length) + o.vars.length)).sum
 
+/-! ## totals and the closed bounds (proved in `Props/C19.lean`) -/
+
+/-- fragment-spread nodes of the executable definitions -/
+def docSpreads (d : Document) : Nat :=
+  ((opDefs d).map (fun o => nSpreadsSet o.sel)).sum + ((fragDefs d).map (fun f => nSpreadsSet f.sel)).sum
+
+/-- variable usages of the executable definitions (Variable nodes outside variable definitions) -/
+def docUsages (s : Schema) (d : Document) : Nat :=
+  ((opDefs d).map (fun o => (varUsagesOp s o).length)).sum + ((fragDefs d).map (fun f => (varUsagesFrag s f).length)).sum
+
+/-- NoFragmentCycles with `F` definitions, at most `S` spreads per definition, `X` per `FragmentSpreads` request -/
+def cyclesBound (F S X : Nat) : Nat := F * (1 + X) + F * S + F * S * (F + 2) + F
+
+/-- without the caches: every rule re-traverses, for every operation, the operation and its whole fragment closure -/
+def graphBoundUncached (O F N : Nat) : Nat := cyclesBound F N N + F + O * (4 + 4 * F + 21 * N)
+
+/-- with the caches: one pass over the document, then per operation only its closure's spread and usage lists -/
+def graphBoundCached (O F N S U : Nat) : Nat := 4 * N + cyclesBound F S 1 + F + O * (6 + 3 * F + S + 4 * U)
+
 end GqlModel.Validate.Graph
